@@ -84,6 +84,13 @@ def shape_modules(rng, tier):
          "data": [{"mode": "active" if k % 3 else "passive", "offset": ["i32.const", b32(k * 7)], "bytes": [k % 256] * (k % 11)} for k in range(nd)],
          "datacount": True, "exports": [{"name": "f", "kind": "func", "idx": 0}, {"name": "memory", "kind": "memory", "idx": 0}]}
     mods.append(("data-%d" % nd, m))
+    # one module with every section kind (the directed module of checks/c08.py), with a name section: swept byte by byte
+    src = open(os.path.join(os.path.dirname(os.path.abspath(__file__)), "c08.py")).read().replace("main_wrap(main)", "")
+    ns = {"__file__": os.path.join(os.path.dirname(os.path.abspath(__file__)), "c08.py"), "__name__": "borrowed_c08"}
+    exec(compile(src, "c08", "exec"), ns)
+    allsec = machine.enc_module(machine.norm_module(ns["directed_module"]()))
+    allsec["names"] = {"0": "host", "1": "first", "3": "third_function_with_a_longer_name"}
+    mods.append(("allsections", allsec))
     # generated programs of the mixed / calls profiles
     for it in wasmgen.programs("mixed", 30 if tier == "quick" else 300, SEED, args_per_prog=1)[:12 if tier == "quick" else 120]:
         mods.append(("gen-" + it["id"], machine.enc_module(it["module"])))
@@ -149,10 +156,10 @@ def main():
             for bnd in bounds:
                 cuts |= {bnd - 1, bnd, bnd + 1}
             cuts |= set(range(1, len(data), max(1, len(data) // (12 if tier == "quick" else 200))))
-            if tier != "quick" and len(data) <= 2048:
+            if (tier != "quick" and len(data) <= 2048) or name == "allsections":
                 cuts |= set(range(1, len(data)))
             cuts = sorted(c for c in cuts if 0 < c < len(data))
-            if tier == "quick" and len(cuts) > 40:
+            if tier == "quick" and len(cuts) > 40 and name != "allsections":
                 cuts = sorted(rng.sample(cuts, 40))
             for c in cuts:
                 jobs.append((name, data[:c], c, "prefix", rng.choice(option_vectors(rng, nfuncs, "quick")[:3]), "plain"))
